@@ -8,14 +8,23 @@ func ExtractLicenses(expression string) ([]string, error) {
 		return nil, err
 	}
 
-	expanded := node.expand(true)
+	// collect the licenses directly from the expression tree; expanding the expression
+	// first grows exponentially with the number of ANDed OR groups
 	licenses := make([]string, 0)
-	allLicenses := flatten(expanded)
-	for _, licenseNode := range allLicenses {
+	for _, licenseNode := range node.leaves(nil) {
 		licenses = append(licenses, *licenseNode.reconstructedLicenseString())
 	}
 
 	licenses = removeDuplicateStrings(licenses)
 
 	return licenses, nil
+}
+
+// leaves appends the license and license reference nodes of the expression rooted
+// at the node to result, from left to right.
+func (n *node) leaves(result []*node) []*node {
+	if n.isExpression() {
+		return n.right().leaves(n.left().leaves(result))
+	}
+	return append(result, n)
 }
